@@ -237,6 +237,8 @@ package parse
 //@   ensures[S] 0 <= size && size <= 4 && size <= len(p) && (len(p) > 0 ==> size >= 1)
 //@ extern unicode/utf8.DecodeRuneInString
 //@   ensures[S] 0 <= size && size <= 4 && size <= len(s) && (len(s) > 0 ==> size >= 1)
+//@ extern fmt.Sprintf
+//@   ensures[S] len(format) > 0 && format[0] != '%' ==> len(result) > 0
 //@ extern fmt.Errorf
 //@   ensures[S] result != nil
 //@ extern errors.New
